@@ -149,3 +149,34 @@ Print Assumptions c03_failure_bounded_partial.
 Print Assumptions c03_max_retransmissions_error.
 Print Assumptions c03_retransmit_count_grows.
 Print Assumptions c03_eof_after_all_partial.
+
+(* ================================================================================================
+   Step-level and trace-level theorems (Conn/C03_Step.v). *)
+From Utp Require Import Conn.VSock_Lemmas Conn.VSock_LemmasStep Conn.VSock_LemmasReach
+  Conn.VSock_LemmasPark Conn.C03_Step.
+
+(* the poll that returns Ready leaves both halves closed, no application waker registered, and has
+   fired every waker that was registered — from every state satisfying the invariant pk *)
+Theorem c03_ready_closed_ok_every_step : forall (CC : Type) (cci : cc_iface CC) (cfg : vconfig) (s : vsock CC) (o : vop),
+  pk s -> c03_ready_closed_ok cfg (VSock_Lemmas.fstep_of cci s o) = true.
+Proof. exact @c03_ready_closed_ok_step. Qed.
+
+(* no call parks on a closed half — from every state whose read half is not marked closed (an
+   invariant of every state before the Ready poll, c03_ncrx_live) *)
+Theorem c03_no_hang_ok_every_step : forall (CC : Type) (cci : cc_iface CC) (cfg : vconfig) (s : vsock CC) (o : vop),
+  ncrx s -> c03_no_hang_ok cfg (VSock_Lemmas.fstep_of cci s o) = true.
+Proof. exact @c03_no_hang_ok_step. Qed.
+
+Theorem c03_ncrx_live : forall (CC : Type) (cci : cc_iface CC) (s : vsock CC) (o : vop),
+  ncrx s -> poll_finished (vstep_out cci s o) = false -> ncrx (vstep_state cci s o).
+Proof. exact @ncrx_vstep_live. Qed.
+
+Theorem c03_after_death_ok_every_trace : forall (CC : Type) (cci : cc_iface CC) (cfg : vconfig)
+    (mk : Z -> Z -> CC) (c : vconfig) (s0 : vsock CC) (ops : list vop),
+  vsock_new cci mk c = Some s0 -> c03_after_death_ok cfg (ftrace cci s0 ops) = true.
+Proof. exact @c03_after_death_ok_trace. Qed.
+
+Print Assumptions c03_ready_closed_ok_every_step.
+Print Assumptions c03_no_hang_ok_every_step.
+Print Assumptions c03_ncrx_live.
+Print Assumptions c03_after_death_ok_every_trace.
